@@ -35,13 +35,13 @@ def shifted(g, d):
 
 
 def main():
-    s = StandIn("affinity_pairs", "81 ordered type pairs x random valid geometries (time <= 10 s) x buffers {(0.01,100),(0.2,500),(0,0) for 2-D pairs}")
+    s = StandIn("affinity_pairs", "81 ordered type pairs x random valid geometries (time <= 10 s) x buffers {(0.01,100),(0.2,500),(2.5,100),(0,0) for 2-D pairs}")
     n = 3 if s.tier == "quick" else 40
     for k1, k2 in itertools.product(TYPES, TYPES):
         for j in range(n):
             g1 = random_geometry(s.rng, k1, tmax=3.0)
             g2 = random_geometry(s.rng, k2, tmax=3.0) if j % 3 else shifted(g1, 0.0) if k1 == k2 else random_geometry(s.rng, k2, tmax=3.0)
-            bufs = [(0.01, 100.0), (0.2, 500.0)]
+            bufs = [(0.01, 100.0), (0.2, 500.0), (2.5, 100.0)]
             if not (C.is_buffered(k1) or C.is_buffered(k2)):
                 bufs.append((0.0, 0.0))
             for tb, fb in bufs:
@@ -61,6 +61,18 @@ def main():
                 b = compute_affinity(g2, g1, time_buffer=tb, freq_buffer=fb)
                 if abs(a - b) > TOL * max(abs(a), abs(b), 1e-300):
                     s.fail(f"affinity_symmetry:{k1}:{k2}", f"affinity({k1},{k2})={a!r} but reversed {b!r}")
+                if C.is_time(k1) or C.is_time(k2):
+                    # independent reference for the time-only clause: raw time extents widened by the buffer (clipped at 0)
+                    def extent(g):
+                        t0, _, t1, _ = compute_bounds(g)
+                        w = tb if C.is_buffered(g.type) else 0.0
+                        return max(0.0, t0 - w), t1 + w
+                    (s1, e1), (s2, e2) = extent(g1), extent(g2)
+                    want = C.iou_1d(s1, e1, s2, e2)
+                    # GEOS round caps of diagonal lines fall short of the buffer by <= 0.5 % (C11 known finding): 1e-2 there
+                    tol = 1e-2 if {k1, k2} & {"LineString", "MultiLineString"} else 1e-6
+                    if abs(a - want) > tol:
+                        s.fail(f"affinity_time_iou:{k1}:{k2}", f"compute_affinity({k1}{g1.coordinates}, {k2}{g2.coordinates}, {tb}, {fb}) = {a!r}, IoU of the buffered time extents [{s1},{e1}] / [{s2},{e2}] is {want!r}")
                 p1, p2 = C.prepared(g1, tb, fb), C.prepared(g2, tb, fb)
                 b1, b2 = compute_bounds(p1), compute_bounds(p2)
                 if (b1[2] < b2[0] or b2[2] < b1[0]) and a != 0:
